@@ -345,6 +345,12 @@ and step_of1 (st : string) : stepk =
   | ["LF"; fp; fg] -> SOp (OLoadFiltered (dec_rule fp, dec_rule fg))
   | ["SV"] -> SOp OSave | ["BR"] -> SOp OBuildRoleLinks
   | ["SM"; spec] -> SOp (OSetModel (modeldef_of_spec spec))
+  | ["SMR"; spec; rules] ->
+    (* the model handed to set_model already carries rules (Model::add_policy before the call) *)
+    let d = modeldef_of_spec spec in
+    let md = List.fold_left (fun md l -> match l with sec :: pt :: r -> fst (m_add_policy md sec pt r) | _ -> md)
+        d.d_model (dec_rules rules) in
+    SOp (OSetModel { d with d_model = md })
   | ["SA"; spec] -> SOp (OSetAdapter (adapter_of_spec spec))
   | ["SR"; n] -> SOp (OSetRoleManager (nat_of_int (int_of_string n)))
   | ["SE"] -> SOp OSetEffector
